@@ -16,9 +16,30 @@ or assigned to doist.tock before the run.
                      of cycle k) + overshoot of the sleeps of cycle k: lateness is
                      not carried forward.
   P3                 the virtual tyme after k cycles is start + k * tock.
-All durations are k/1024 and the clock base is an integer, so every comparison
-is exact.
+
+The harness clock keeps true elapsed time and the system clock as exact rationals
+(fractions.Fraction over the float values of the case); time() returns the system
+clock correctly rounded to a float, as a real clock does.  k * tock is computed
+exactly from the float value of the tock.
+
+Two classes of scripts:
+  exact   ("clock-scripts") all durations are k/1024, the tock is dyadic and the clock
+          base a small integer, so every reading and every sum inside hio is exact:
+          P1..P3 are compared with NO tolerance.
+  float   ("float-clock", case["fl"]) any float tock (0.1, 0.001, 1/3, ...), clock bases
+          of epoch magnitude (1.5e9 .. 2e9) as well as small ones, 2 .. 64 (thorough: 200)
+          cycles on a mostly steady clock with a few disturbances, blocking do() only.  A
+          float clock cannot express an instant more finely than one ulp of its value, so
+          P1 and P2 allow ONE FIXED tolerance per case: TOL_ULPS (4) ulps of the largest
+          clock reading of the run, plus BACK_ULPS (2) ulps per backward step in the script
+          (each step makes the timer re-derive its deadline from two more rounded readings).
+          The tolerance does not depend on the cycle number k, so an error that accumulates
+          from cycle to cycle is reported as soon as it exceeds it.  P3 there only asks for
+          tyme within 1e-9 relative (tyme is a float sum; the statement is not about it).
 """
+import math
+from fractions import Fraction as F
+
 from hypothesis import strategies as st
 
 from hio.base import doing
@@ -30,33 +51,47 @@ assert_in_tree(doing, timing)
 PID = "C07"
 RULE = ("cases: clock scripts for 2..8 cycles: per cycle work duration (0 .. 3 tocks), per-sleep overshoot, optional clock "
         "stall during a sleep, backward steps during work / before do(); tock from {1/32, 1/8, 1/4, 1} given at "
-        "construction or changed before do(). non-trivial = some cycle is late by more than one tock, or a backward "
-        "step occurs, or the tock was changed after construction; distinct = canonical hash of the script")
+        "construction or changed before do() (exact class, no tolerance); float class: 2..64 (thorough 200) cycles, any "
+        "float tock in [1e-4, 1] incl. 0.1/0.01/0.001/0.0001/1/3, clock base of epoch magnitude (1.5e9..2e9) or small, at "
+        "most 4 disturbed cycles, blocking do() only, one fixed tolerance of 4 ulp of the largest clock reading + 2 ulp per "
+        "backward step. non-trivial = some cycle is late by more than one tock, or a backward "
+        "step occurs, or the tock was changed after construction, or (float class) a tock that is not a whole number "
+        "of clock quanta is paced for at least 16 cycles; distinct = canonical hash of the script")
 ASSUMPTIONS = ["the harness clock replaces the time module inside hio.base.doing and hio.help.timing during a case; in ado mode asyncio.sleep (as seen by doing) advances the harness clock and AsyncTimer reads the harness clock as the loop time",
                "forward jumps of the system clock are excluded (documented as undetectable)",
-               "enter of the doers takes no time, so the run starts when do() is called"]
+               "enter of the doers takes no time, so the run starts when do() is called",
+               "float class: time() is the exact system clock correctly rounded to a float; an early or late start is only "
+               "reported beyond a fixed 4 ulp of the largest clock reading (+ 2 ulp per backward step of the script), "
+               "independent of the cycle number"]
+
+TOL_ULPS = 4      # float class: fixed tolerance, in ulps of the largest clock reading of the run
+BACK_ULPS = 2     # float class: added once per backward step in the script
 
 
 class Clock:
-    """Harness clock: .true is real elapsed time, .sys is what time.time() reports."""
+    """Harness clock: .true is real elapsed time, .off + .true is the system clock (both exact rationals);
+    time() reports the system clock rounded to the nearest float."""
 
     def __init__(self, base, script):
-        self.true = 0.0
-        self.sys = float(base)
+        self.true = F(0)
+        self.off = F(base)         # system clock minus true elapsed time
         self.sleeps = script       # list of [overshoot, stall] consumed per sleep call
         self.si = 0
         self.sleep_log = []
         self.nsleeps = 0
+        self.maxr = 0.0            # largest magnitude reported by time()
 
     def time(self):
-        return self.sys
+        r = float(self.off + self.true)
+        if abs(r) > self.maxr:
+            self.maxr = abs(r)
+        return r
 
     def advance(self, d):
-        self.true += d
-        self.sys += d
+        self.true += F(d)
 
     def back(self, d):
-        self.sys -= d
+        self.off -= F(d)
 
     def sleep(self, d):
         self.nsleeps += 1
@@ -66,11 +101,11 @@ class Clock:
         if self.si < len(self.sleeps):
             o, s = self.sleeps[self.si]
             self.si += 1
-        total = d + o
-        s = min(s, total)
+        total = F(d) + F(o)
+        s = min(F(s), total)
         self.true += total
-        self.sys += total - s
-        self.sleep_log.append((d, o, s))
+        self.off -= s              # the system clock stands still for s of the sleep
+        self.sleep_log.append((F(d), F(o), s))
 
 
 class Worker(doing.Doer):
@@ -84,12 +119,12 @@ class Worker(doing.Doer):
         k = self.k
         start_true = c.true
         spec = self.cycles[k] if k < len(self.cycles) else {"work": 0.0, "back": None}
-        w = spec["work"]
+        w = F(spec["work"])
         if spec.get("back"):
             frac, b = spec["back"]
-            c.advance(w * frac)
+            c.advance(w * F(frac))
             c.back(b)
-            c.advance(w - w * frac)
+            c.advance(w - w * F(frac))
         else:
             c.advance(w)
         self.log.append({"k": k, "start": start_true, "end": c.true, "tyme": tyme, "sleeps_before": len(c.sleep_log)})
@@ -97,9 +132,23 @@ class Worker(doing.Doer):
         return self.k >= len(self.cycles)
 
 
+def expand(case):
+    """Per-cycle specs of a case.  Float-class cases give the number of cycles "n" and only the disturbed cycles
+    as "events" [[k, work, back]]; all other cycles do no work."""
+    if "n" not in case:
+        return case["cycles"]
+    cycles = [{"work": 0.0, "back": None} for _ in range(case["n"])]
+    for k, work, back in case.get("events", []):
+        if 0 <= k < len(cycles):
+            cycles[k] = {"work": work, "back": back}
+    return cycles
+
+
 def run_case(case):
     r = Result()
     tock = case["tock"]
+    fl = bool(case.get("fl"))
+    cycles = expand(case)
     clock = Clock(case["base"], [list(x) for x in case["sleeps"]])
     log = []
     sd, st_ = doing.time, timing.time
@@ -145,7 +194,7 @@ def run_case(case):
         if pre:
             clock.advance(pre[0])
             clock.back(pre[1])
-        worker = Worker(clock, case["cycles"], log, tock=0.0)
+        worker = Worker(clock, cycles, log, tock=0.0)
         t0 = clock.true
         if ado:
             real_asyncio.run(doist.ado(doers=[worker]))
@@ -157,52 +206,76 @@ def run_case(case):
         doing.asyncio = sa
         if ado:
             timing.asyncio = st_aio
-    any_back = bool(pre and pre[1] > 0) or any(c.get("back") and c["back"][1] > 0 for c in case["cycles"])
+    nback = int(bool(pre and pre[1] > 0)) + sum(1 for c in cycles if c.get("back") and c["back"][1] > 0)
+    any_back = nback > 0
     any_stall = any(s > 0 for _d, _o, s in clock.sleep_log)
+    changed = case["ctor_tock"] is not None and case["ctor_tock"] != tock
+    ftock = F(tock)                      # the float value of the tock, exactly
+    ulp = math.ulp(clock.maxr)
+    # exact class: no tolerance.  float class: one fixed tolerance per case, independent of the cycle number
+    tol = (TOL_ULPS + BACK_ULPS * nback) * F(ulp) if fl else F(0)
     late = False
     for i, ent in enumerate(log):
         k = ent["k"]
-        el = ent["start"] - t0
-        if k >= 1 and el < k * tock:
-            if case["ctor_tock"] is not None and case["ctor_tock"] != tock:
+        el = ent["start"] - t0           # exact true elapsed time at the start of cycle k
+        if k >= 1 and el < k * ftock - tol:
+            if fl:
+                sig = "C07/early"        # the sub-classes below are those of the exact class
+            elif changed:
                 sig = "C07/early-after-tock-change"
             elif pre and pre[1] > 0:
                 sig = "C07/early-after-backstep-before-run"
             else:
                 sig = "C07/early"
-            r.fail(sig, "cycle %d began at true elapsed %r < %d * tock %r (ctor tock %r, pre %r)" % (
-                k, el, k, tock, case["ctor_tock"], pre))
+            r.fail(sig, "cycle %d began at true elapsed %r < %d * tock %r (ctor tock %r, pre %r)%s" % (
+                k, float(el), k, tock, case["ctor_tock"], pre,
+                "; early by %.3g s = %.1f ulp of the clock value %r (ulp %.3g s), tolerance %d ulp; cycle %d was "
+                "early by %.1f ulp" % (
+                    float(k * ftock - el), float((k * ftock - el) / F(ulp)), clock.maxr, ulp,
+                    TOL_ULPS + BACK_ULPS * nback, k // 2,
+                    float(((k // 2) * ftock - (log[i - k + k // 2]["start"] - t0)) / F(ulp))) if fl else ""))
             return r
-        if ent["tyme"] != case["tyme0"] + k * tock and True:
-            # tyme advances by float additions; dyadic values make k * tock exact
-            r.fail("C07/virtual-tyme", "cycle %d tyme %r expected %r" % (k, ent["tyme"], case["tyme0"] + k * tock))
+        want = case["tyme0"] + k * tock
+        if (abs(ent["tyme"] - want) > 1e-9 * max(1.0, abs(want))) if fl else (ent["tyme"] != want):
+            # tyme advances by float additions; dyadic values make k * tock exact (exact class)
+            r.fail("C07/virtual-tyme", "cycle %d tyme %r expected %r" % (k, ent["tyme"], want))
             return r
-        if k >= 1 and el > (k + 1) * tock:
+        if k >= 1 and el > (k + 1) * ftock:
             late = True
         if k >= 1 and not any_back and not any_stall:
             prev = log[i - 1]
-            sl = clock.sleep_log[prev["sleeps_before"]:ent["sleeps_before"]] if False else None
             # sleeps of cycle k-1 are those logged between the two workers' recurs
             a = prev["sleeps_before"]
             b = ent["sleeps_before"]
             over = sum(o for _d, o, _s in clock.sleep_log[a:b])
-            bound = max(k * tock, prev["end"] - t0) + over
-            if el > bound:
-                r.fail("C07/late-after-tock-change" if (case["ctor_tock"] is not None and case["ctor_tock"] != tock)
-                       else "C07/drift", "cycle %d began at %r, later than max(%d*tock=%r, previous work end %r) + overshoot %r" % (
-                    k, el, k, k * tock, prev["end"] - t0, over))
+            bound = max(k * ftock, prev["end"] - t0) + over
+            if el > bound + tol:
+                r.fail("C07/late-after-tock-change" if (changed and not fl)
+                       else "C07/drift", "cycle %d began at %r, later than max(%d*tock=%r, previous work end %r) + overshoot %r%s" % (
+                    k, float(el), k, float(k * ftock), float(prev["end"] - t0), float(over),
+                    "; late by %.3g s = %.1f ulp of the clock value %r (ulp %.3g s), tolerance %d ulp" % (
+                        float(el - bound), float((el - bound) / F(ulp)), clock.maxr, ulp, TOL_ULPS) if fl else ""))
                 return r
-    if len(log) != len(case["cycles"]):
-        r.fail("C07/cycles", "ran %d cycles, script has %d" % (len(log), len(case["cycles"])))
-    r.nontrivial = late or any_back or (case["ctor_tock"] is not None and case["ctor_tock"] != tock)
+    if len(log) != len(cycles):
+        r.fail("C07/cycles", "ran %d cycles, script has %d" % (len(log), len(cycles)))
+    # float class: is the tock a whole number of quanta of this clock?  (if not, every period is rounded)
+    offgrid = fl and (ftock / F(ulp)).denominator != 1
+    r.nontrivial = late or any_back or changed or (offgrid and len(cycles) >= 16)
     r.labels.append("mode:" + ("ado" if ado else "do"))
+    if fl:
+        r.labels.append("float-class")
+        r.labels.append("clock:" + ("epoch" if clock.maxr >= 1e9 else "small"))
+        if offgrid:
+            r.labels.append("tock-off-clock-grid")
+            if len(cycles) >= 16:
+                r.labels.append("tock-off-clock-grid:>=16-cycles")
     if late:
         r.labels.append("late>1tock")
     if any_back:
         r.labels.append("backward-step")
     if any_stall:
         r.labels.append("stall")
-    if case["ctor_tock"] is not None and case["ctor_tock"] != tock:
+    if changed:
         r.labels.append("tock-changed-after-ctor")
     if pre and pre[1] > 0:
         r.labels.append("backstep-before-run")
@@ -237,6 +310,36 @@ def script(draw, tock_change=True, pre_back=True):
             "tyme0": draw(st.sampled_from([0.0, 1.0, 16.5])), "cycles": cycles, "sleeps": sleeps, "pre": pre}
 
 
+# float class: tocks a user writes (most are not a whole number of quanta of any float clock) and arbitrary floats
+FTOCKS = [0.1, 0.01, 0.001, 0.0001, 0.05, 0.02, 0.005, 0.3, 1 / 3, 0.7, 1 / 32]
+
+
+@st.composite
+def script_fl(draw, maxn=64):
+    tock = draw(st.one_of(st.sampled_from(FTOCKS), st.floats(1e-4, 1.0, allow_nan=False)))
+    # system clock when the Doist is made: today's time.time() (epoch magnitude), the base of the exact class,
+    # a small (monotonic-like) value
+    base = draw(st.one_of(st.floats(1.5e9, 2.0e9, allow_nan=False), st.integers(1500000000, 2000000000),
+                          st.integers(1 << 20, 1 << 22), st.floats(1e3, 1e6, allow_nan=False)))
+    n = draw(st.integers(2, maxn))
+    dur = st.one_of(st.integers(0, 24).map(lambda m: m * tock / 8), st.floats(0.0, 3 * tock, allow_nan=False))
+    small = st.one_of(st.integers(0, 8).map(lambda m: m * tock / 8), st.floats(0.0, tock, allow_nan=False))
+    step = st.one_of(st.integers(1, 40).map(lambda m: m * tock / 8), st.floats(0.0, 5 * tock, allow_nan=False))
+    back = st.one_of(st.none(), st.none(), st.tuples(st.sampled_from([0.0, 0.5, 1.0]), step).map(list))
+    events = draw(st.lists(st.tuples(st.integers(0, n - 1), dur, back).map(list), max_size=4))
+    sleeps = draw(st.lists(st.tuples(small, st.one_of(st.just(0.0), st.just(0.0), small)).map(list), max_size=12))
+    ctor = None
+    if draw(st.integers(0, 5)) == 0:
+        ctor = draw(st.sampled_from(FTOCKS))
+    pre = None
+    if draw(st.integers(0, 5)) == 0:
+        pre = [draw(dur), draw(st.one_of(st.just(0.0), step))]
+    # the statement quantifies over the blocking do() loop: the float class does not drive ado()
+    return {"fl": True, "mode": "do", "tock": tock, "ctor_tock": ctor, "base": base,
+            "tyme0": draw(st.sampled_from([0.0, 1.0, 16.5])), "n": n, "events": events, "sleeps": sleeps, "pre": pre}
+
+
 def searches(tier):
     q = tier == "quick"
-    return [("clock-scripts", script(), 2000 if q else 25000)]
+    return [("clock-scripts", script(), 2000 if q else 25000),
+            ("float-clock", script_fl(64 if q else 200), 600 if q else 5000)]
